@@ -153,6 +153,7 @@ def _validate(tr, cfg, tag):
 
 
 def _context(r, n=6):
+    """the first record no action explains (or the record at which an invariant failed), preceded by n - 1 records"""
     try:
         lines = open(r.trace_with_header).read().splitlines()
     except Exception:
@@ -163,8 +164,8 @@ def _context(r, n=6):
 
 def _why(r):
     if r.violated and r.violated != "StopWhenAccepted":
-        return "invariant %s of Muxnote.tla is violated by the behaviour the real library performed; last records: %s" % (r.violated, _context(r, 5))
-    return "no action of Muxnote.tla explains record %d; last records: %s" % (r.maxl or 1, _context(r))
+        return "invariant %s of Muxnote.tla is violated by the behaviour the real library performed; records up to there: %s" % (r.violated, _context(r, 5))
+    return "no action of Muxnote.tla explains record %d (the last one shown); records: %s" % (r.maxl or 1, _context(r))
 
 
 def _run(drv, name, seed, perturb, nexec, cfgmask, flags, storm=False):
@@ -292,8 +293,6 @@ def _judge(res, variant, kf, two_readers):
             out["known"].append((KF_SIB, "driver run %s seed %d: %d executions with a sibling double delivery, %d r1 oracle failures that follow from it"
                                  % (tag, res["seed"], len(out["sib_execs"]), n_or)))
         else:
-            k0 = None
-            lines = open(r.trace_with_header).read().splitlines()
             out["viol"].append(("muxnote: with two READ sources on one descriptor r1 is handed a second event while its previous one is pending / "
                                 "being handled, after its sibling re-armed or registered (per-direction disarm; Muxnote.tla Fix = FALSE, invariant "
                                 "NoSiblingDoubleDelivery; driver run %s, seed %d, executions %s); driver oracles: %s"
